@@ -841,13 +841,13 @@ class Ref:
     def _apply(self, op):
         n = op["op"]
         if n == "LOAD":
-            self.reload(op["slot"], op["data"])
+            self.reload(op["slot"], top_ordered(op["data"], op.get("share", {}).get("data")))
             return ABSENT
         if n == "ENV":
             self.load_env(op["env"])
             return ABSENT
         if n in ("LOADU", "EDITSRC", "LOADSAME"):
-            self.reload(op["slot"], op["data"])
+            self.reload(op["slot"], top_ordered(op["data"], op.get("share", {}).get("data")))
             return ABSENT
         if n == "MERGE":
             return ABSENT
@@ -999,8 +999,16 @@ def rows(results, views):
     return "|".join("#".join([r] + [v if isinstance(v, str) else canon(v) for v in vs]) for r, vs in zip(results, views))
 
 
+def top_ordered(data, share):
+    """the level's data with its top-level keys in the order recorded with a sharing description (no aliasing)"""
+    if isinstance(share, dict) and share.get("top") and isinstance(data, dict):
+        return {k: data[k] for k in [k for k in share["top"] if k in data] + [k for k in data if k not in share["top"]]}
+    return data
+
+
 def new_ref(op):
-    lv = {"defaults": op["defaults"], "overrides": op["overrides"]}
+    sh = op.get("share", {})
+    lv = {"defaults": top_ordered(op["defaults"], sh.get("defaults")), "overrides": top_ordered(op["overrides"], sh.get("overrides"))}
     for s in ("system", "user", "project", "runtime"):
         if op.get(s) is not None:
             lv[s] = op[s]
